@@ -64,6 +64,8 @@ CONFIGS = {
                     shadow=['shuttle = "0.9.3"']),
     "dbg_serde_safe": dict(tlsh=BASE_FEATURES + ["serde", "serde-buffered", "strict-parser"], sim=["serde"],
                            profile={"opt-level": 2, "debug-assertions": "true", "overflow-checks": "true"}),
+    # serde without this crate's std/alloc features (what an embedded user builds), incl. serde-buffered
+    "serde_noalloc": dict(tlsh=["easy-functions", "serde", "serde-buffered"], sim=["serde", "nostd"]),
     # C16: the four serde feature sets
     "serde": dict(tlsh=BASE_FEATURES + ["serde"], sim=["serde"]),
     "serde_strict": dict(tlsh=BASE_FEATURES + ["serde", "strict-parser"], sim=["serde"]),
@@ -1006,7 +1008,7 @@ def check_C17(ctx, tier, seed):
         feats = sorted(set(PLAIN + [f for f in OPT_ONLY_FEATURES if rnd.random() < 0.45]))
         k = "dbg_rand_%d" % i
         CONFIGS[k] = dict(tlsh=feats, sim=[], rustflags=rnd.choice(["", "", "-C target-feature=+sse4.1,+ssse3", "-C target-feature=+avx2"]),
-                          profile={"opt-level": rnd.choice([1, 2, 2]), "debug-assertions": "true", "overflow-checks": "true"})
+                          profile={"opt-level": rnd.choice([0, 1, 2]), "debug-assertions": "true", "overflow-checks": "true"})
         rand_twins.append(k)
     tbins.update(build_many(ctx, rand_twins))
     vd.extra["random_debug_builds"] = {k: {"features": CONFIGS[k]["tlsh"], "rustflags": CONFIGS[k]["rustflags"], "profile": CONFIGS[k]["profile"]} for k in rand_twins}
@@ -1017,7 +1019,7 @@ def check_C17(ctx, tier, seed):
         list(ex.map(twin, twins + rand_twins))
     for k in rand_twins:
         shutil.rmtree(os.path.join(ctx.build_root, k), ignore_errors=True)
-    # the file helpers on real files, incl. calls from threads with a 192 KiB stack (stack exhaustion is a crash, too)
+    # the file helpers on real files, incl. calls from threads with a 128 KiB stack (stack exhaustion is a crash, too)
     fscratch = os.path.join(ctx.build_root, "dbg", "files")
     for cfg in ("dbg", "rel_unsafe"):
         code, rep, err = run_sim(ctx, bins[cfg], ["hashfile", "--dir", fscratch, "--seed", seed], allow_abort=True)
@@ -1029,7 +1031,7 @@ def check_C17(ctx, tier, seed):
             vd.add(cfg, rep)
         else:
             vd.add_violation(cfg, "c12file", {"class": "native-abort:hash_file on a small-stack thread", "index": 0, "engine": "hashfile",
-                                              "detail": "process died (exit %s) while hashing real files (every other file on a thread with a 192 KiB stack): %s" % (code, err[-300:].replace("\n", " | ")),
+                                              "detail": "process died (exit %s) while hashing real files (every other file on a thread with a 128 KiB stack): %s" % (code, err[-300:].replace("\n", " | ")),
                                               "history": {"seed": seed}})
     # serde visitors under debug assertions / overflow checks with feature unsafe (false invariants abort there)
     ds = try_build(ctx, "dbg_serde")
@@ -1063,8 +1065,12 @@ def check_C17(ctx, tier, seed):
     # all (configuration, scenario) pairs run concurrently, 3 interpreter processes each in the quick tier
     procs = 3 if quick else 4
     per = 32 if quick else 128
-    with ThreadPoolExecutor(max_workers=len(pairs) if quick else 4) as ex:
+    with ThreadPoolExecutor(max_workers=(len(pairs) + 1) if quick else 4) as ex:
+        # first calls of two or three threads racing on the build with feature `unsafe` (data races on lazily built state
+        # are invisible natively: only the interpreter's race detector sees them)
+        race = ex.submit(lambda: miri_race(ctx, vd, "miri_unsafe_sse2", [seed] if quick else [seed + i for i in range(4)], 16 if quick else 64))
         list(ex.map(lambda cs: miri_batches(ctx, vd, cs[0], cs[1], per * procs, procs), pairs))
+        race.result()
     if not quick:
         miri_batches(ctx, vd, "miri_unsafe_serde", "c16", 800, 8)
         miri_batches(ctx, vd, "miri_unsafe_serde", "c16mock", 800, 8)
@@ -1167,7 +1173,7 @@ def check_C11(ctx, tier, seed):
     return vd.finish()
 
 
-SERDE_CONFIGS = ["serde", "serde_strict", "serde_buf", "serde_buf_strict", "serde_unsafe", "serde_plain", "serde_all"]
+SERDE_CONFIGS = ["serde", "serde_strict", "serde_buf", "serde_buf_strict", "serde_unsafe", "serde_plain", "serde_all", "serde_noalloc"]
 
 
 def check_C16(ctx, tier, seed):
